@@ -278,6 +278,9 @@ namespace glm
 		detail::float_t<float> const a(x);
 		detail::float_t<float> const b(y);
 
+		// Values of different signs: +0 and -0 are the same point, the distance is the sum of the distances to zero
+		if(a.negative() != b.negative())
+			return (a.i & 0x7fffffff) + (b.i & 0x7fffffff);
 		return abs(a.i - b.i);
 	}
 
@@ -286,6 +289,9 @@ namespace glm
 		detail::float_t<double> const a(x);
 		detail::float_t<double> const b(y);
 
+		// Values of different signs: +0 and -0 are the same point, the distance is the sum of the distances to zero
+		if(a.negative() != b.negative())
+			return (a.i & static_cast<int64>(0x7fffffffffffffffll)) + (b.i & static_cast<int64>(0x7fffffffffffffffll));
 		return abs(a.i - b.i);
 	}
 }//namespace glm
